@@ -37,6 +37,30 @@ def random_runs(schema, rnd, tier):
     return runs
 
 
+def overlap_runs(schema, rnd, tier):
+    """creation calls that give an attribute both positionally and by keyword (the keyword wins); the plan runs with
+    rotating spellings of the keyword names, which address the same attributes"""
+    runs = []
+    for _ in range(20 if tier == 'quick' else 300):
+        acts = []
+        for _ in range(rnd.randint(4, 10)):
+            c = rnd.choice(schema['classes'])
+            names = [a['n'] for a in schema['attrs'][c]]
+            plain = metagen.plain_attrs(schema, c)
+            maxpos = 0
+            while maxpos < len(names) and names[maxpos] in plain:
+                maxpos += 1
+            npos = rnd.randint(0, maxpos)
+            val = lambda n: metagen.value_for(schema, c, n, rnd, 9)
+            pos = [val(names[j]) for j in range(npos)]
+            kw = {n: val(n) for n in plain if rnd.random() < (0.6 if names.index(n) < npos else 0.2)}
+            pos = [('u:%d' % rnd.randint(200, 319) if t.startswith('u:') and t != 'u:0' else t) for t in pos]
+            kw = {n: ('u:%d' % rnd.randint(200, 319) if t.startswith('u:') and t != 'u:0' else t) for n, t in kw.items()}
+            acts.append(['New', c, pos, kw])
+        runs.append({'acts': acts})
+    return runs
+
+
 def ref_runs(schema, rnd, tier):
     """creation calls whose positional / keyword arguments run through referential attributes"""
     runs = []
@@ -90,6 +114,11 @@ def plans():
          'must_cover': ('VNew',), 'budget': 6000, 'maxlen': 10, 'random': ref_runs},
         {'name': 'ref_args_middle', 'schema': 'ref_middle', 'model': False, 'bound': 3, 'random': ref_runs},
         {'name': 'ref_args_uuid', 'schema': 'ref_middle', 'model': False, 'bound': 3, 'gen': 'uuid', 'random': ref_runs},
+        {'name': 'int_overlap', 'schema': 'gen19', 'model': False, 'bound': 2, 'random': overlap_runs},
+        {'name': 'int_overlap_respelled', 'schema': 'gen19', 'model': False, 'bound': 2, 'random': overlap_runs,
+         'opt': {'spell_attr': True}},
+        {'name': 'valued_overlap_respelled', 'schema': 'valued', 'model': False, 'bound': 2, 'random': overlap_runs,
+         'opt': {'spell_attr': True}},
         {'name': 'unknown_type', 'schema': 'unknown_type', 'model': False, 'bound': 1, 'random': unknown_runs},
     ]
 
@@ -109,6 +138,7 @@ def check(tier, replay_path=None):
             'whether an explicitly supplied id consumes a generator value is not fixed by the property: the trace '
             'specification takes the number of ids handed out from the generator itself (peek of the integer generator, '
             'the call counter of the harness\' own generator)',
+            'attribute names are case-insensitive (C10): the plans *_respelled write the keyword names under rotating spellings',
             'a creation call whose referential values would give a single-valued end a second partner is outside the domain '
             '(Meta!Over), as in C03',
         ])
